@@ -188,6 +188,7 @@ fn check_eval(p: &Pos, h: &ZobristHasher) -> Option<String> {
     let n = get_evaluation(&to_board(&o, h));
     if n != -e { return Some(format!("evaluation {} but other side to move {}", e, n)); }
     let mut b2 = b.clone(); b2.order_heuristic = 77; b2.last_move = Some((Point(2, 2), Point(3, 3))); b2.zobrist_key ^= 1; b2.white_king_side_castle = !b2.white_king_side_castle;
+    b2.pawn_promotion = Some(Piece { color: PieceColor::White, kind: PieceKind::Queen }); b2.pawn_double_move = Some(Point(4, 4)); b2.black_queen_side_castle = !b2.black_queen_side_castle;
     if get_evaluation(&b2) != e { return Some("evaluation depends on something other than placement and side".into()); }
     if e.abs() >= 100000 - 15 { return Some(format!("evaluation {} reaches the mate range", e)); }
     None
@@ -281,7 +282,8 @@ fn random_any_placement(rng: &mut Rng) -> Pos {
         if c != wk { break c; }
     };
     sq[wk.0][wk.1] = Some((true, K::K)); sq[bk.0][bk.1] = Some((false, K::K));
-    let n = rng.below(9);
+    // now and then a crowded board (many heavy pieces: game phase above the 24 cap)
+    let n = if rng.below(4) == 0 { rng.below(28) } else { rng.below(9) };
     for _ in 0..n {
         let (r, c) = (rng.below(8), rng.below(8));
         if sq[r][c].is_some() { continue; }
@@ -372,6 +374,8 @@ fn check_draw(count: u8) -> Option<String> {
     t.table.insert(other.zobrist_key, 1);
     for i in 0..count { t.add_board_to_draw_table(&b); if t.table.get(&b.zobrist_key) != Some(&(i + 1)) { return Some(format!("count after {} additions is {:?}", i + 1, t.table.get(&b.zobrist_key))); } }
     if t.table.get(&other.zobrist_key) != Some(&1) { return Some("adding one position changed another position's count".into()); }
+    let mut bb = b.clone(); bb.order_heuristic = 9_999_999; bb.last_move = Some((Point(9, 6), Point(9, 8))); bb.pawn_promotion = Some(Piece { color: PieceColor::Black, kind: PieceKind::Knight });
+    if t.is_threefold_repetition(&bb) != (count >= 2) { return Some(format!("position already seen {} times, probed with a board that carries search ordering data: is_threefold_repetition = {}", count, !(count >= 2))); }
     let got = t.is_threefold_repetition(&b);
     if got != (count >= 2) { return Some(format!("position already seen {} times: is_threefold_repetition = {}", count, got)); }
     t.clear();
